@@ -41,6 +41,29 @@ def gen(chk):
             b = T.mutate(rng, b)
         if len(b) < (100000 if chk.tier == "quick" else 20000):
             add(b.hex())
+    # every NON-CANONICAL compact-size form (a value written in a longer form than it needs) in every position: script lengths, input / output
+    # counts, witness item lengths and counts - all must be rejected; the canonical twin is accepted
+    def csforms(n):
+        out = [T.cs(n)]
+        if n < 253: out.append(b"\xfd" + n.to_bytes(2, "little"))
+        if n < 0x10000: out.append(b"\xfe" + n.to_bytes(4, "little"))
+        out.append(b"\xff" + n.to_bytes(8, "little"))
+        return out
+    for L in (0, 1, 252, 253, 300, 65535, 65536):
+        for form in csforms(L):
+            body = b"\x02\x00\x00\x00" + b"\x01" + bytes(range(32)) + b"\x00\x00\x00\x00" + form + bytes(L) + b"\xff\xff\xff\xff" + b"\x01" + (5).to_bytes(8, "little") + b"\x01\x51" + bytes(4)
+            add(body.hex())
+            body = b"\x02\x00\x00\x00" + b"\x01" + bytes(range(32)) + b"\x00\x00\x00\x00" + b"\x00" + b"\xff\xff\xff\xff" + b"\x01" + (5).to_bytes(8, "little") + form + bytes([0x6a] * L) + bytes(4)
+            add(body.hex())
+            if L <= 300:
+                wit = b"\x02\x00\x00\x00\x00\x01" + b"\x01" + bytes(range(32)) + b"\x00\x00\x00\x00" + b"\x00" + b"\xff\xff\xff\xff" + b"\x01" + (5).to_bytes(8, "little") + b"\x01\x51" + b"\x01" + form + bytes(L) + bytes(4)
+                add(wit.hex())
+    for cnt in (1, 2):
+        for form in csforms(cnt):
+            vin = b"".join(bytes([i]) * 32 + b"\x00\x00\x00\x00" + b"\x00" + b"\xff\xff\xff\xff" for i in range(cnt))
+            add((b"\x02\x00\x00\x00" + form + vin + b"\x01" + (5).to_bytes(8, "little") + b"\x01\x51" + bytes(4)).hex())
+            vout = b"".join((5).to_bytes(8, "little") + b"\x01\x51" for _ in range(cnt))
+            add((b"\x02\x00\x00\x00" + b"\x01" + bytes(32) + b"\x00\x00\x00\x00" + b"\x00" + b"\xff\xff\xff\xff" + form + vout + bytes(4)).hex())
     for _ in range(800):
         n = rng.randrange(0, 16)
         add(bytes(rng.choice([0, 0, 0, 1, 1, 2, 253, 254, 255, rng.getrandbits(8)]) for _ in range(n)).hex())
